@@ -16,9 +16,11 @@
 import Golib.HMap.Linked
 import Golib.HMap.Types
 import Golib.HMap.Multi
+import Golib.HMap.Enum
+import Golib.HMap.Proto
 import Driver.Common
 
-open HMap Drv
+open HMap Drv HMap.Proto
 
 structure Sess (K : Type) [DecidableEq K] where
   d : Desc K Int
@@ -26,28 +28,27 @@ structure Sess (K : Type) [DecidableEq K] where
   thr : Nat → Nat
   spec : S K Int
   conc : LMap K Int
+  sv : Int → String          -- how a value of this type is printed
 
 inductive St
   | none
   | ints (s : Sess Int)
-  | strs (s : Sess String)
+  | strs (s : Sess BKey)
 
 def showList (f : α → String) (xs : List α) : String :=
   if xs.isEmpty then "[]" else ",".intercalate (xs.map f)
 
-def showOut (sk : K → String) : Out K Int → String
+def showOut (sk : K → String) (sv : Int → String) : Out K Int → String
   | .unit => "u"
   | .none => "-"
-  | .val v => toString v
+  | .val v => sv v
   | .key k => sk k
   | .bool b => if b then "T" else "F"
   | .nat n => toString n
   | .keys ks => showList sk ks
-  | .vals vs => showList toString vs
-  | .ents es => showList (fun e => sk e.1 ++ "=" ++ toString e.2) es
+  | .vals vs => showList sv vs
+  | .ents es => showList (fun e => sk e.1 ++ "=" ++ sv e.2) es
 
-def showStrKey (s : String) : String := if s.isEmpty then "~" else s
-def parseStrKey (s : String) : Option String := if s == "~" then some "" else some s
 
 def parseMode : String → Option Mode
   | "L" => some .last | "FL" => some .forceLast | "FF" => some .forceFirst | "F" => some .first
@@ -55,13 +56,13 @@ def parseMode : String → Option Mode
 
 def parseOp [LT K] [DecidableRel (α := K) (· < ·)] (pk : String → Option K) (ws : List String) : Option (Op K Int) :=
   match ws with
-  | ["P", m, k, v] => do some (.put (← parseMode m) (← pk k) (← parseInt v))
-  | ["A", m, k, v] => do some (.add (← parseMode m) (← pk k) (← parseInt v))
-  | ["AN", k, v] => do some (.addNoOver (← pk k) (← parseInt v))
+  | ["P", m, k, v] => do some (.put (← parseMode m) (← pk k) (← parseVal v))
+  | ["A", m, k, v] => do some (.add (← parseMode m) (← pk k) (← parseVal v))
+  | ["AN", k, v] => do some (.addNoOver (← pk k) (← parseVal v))
   | ["G", k] => do some (.get (← pk k))
   | ["GL", k] => do some (.getLRU (← pk k))
   | ["CK", k] => do some (.containsKey (← pk k))
-  | ["CV", v] => do some (.containsValue (← parseInt v))
+  | ["CV", v] => do some (.containsValue (← parseVal v))
   | ["FK"] => some .firstKey
   | ["LK"] => some .lastKey
   | ["FV"] => some .firstValue
@@ -88,11 +89,15 @@ def stepSess [DecidableEq K] [LT K] [DecidableRel (α := K) (· < ·)]
   | some op =>
     let (sp, o1) := S.step s.d s.spec op
     let (cm, o2) := LMap.step s.hash s.thr s.d s.conc op
+    -- enumerations are produced by the enumerator *objects* (HasMoreElements / Next until exhausted)
+    let ks := fun (_ : Unit) => LEnum.drain cm.count cm.openEnum
     let absOk := match op with
-      | .entries => decide (cm.entries s.hash = sp.ents) && decide (cm.count = sp.ents.length) && decide (cm.max = sp.max)
+      | .entries => decide (cm.enumEntries s.hash (ks ()) = sp.ents) && decide (cm.count = sp.ents.length) && decide (cm.max = sp.max)
+      | .keys => decide (Out.keys (ks ()) = o1)
+      | .values => decide (Out.vals (cm.enumValues s.hash (ks ())) = o1)
       | _ => true
-    let txt := showOut sk o1
-    let txt := if o1 = o2 && absOk then txt else "MISMATCH spec=" ++ txt ++ " model=" ++ showOut sk o2
+    let txt := showOut sk s.sv o1
+    let txt := if o1 = o2 && absOk then txt else "MISMATCH spec=" ++ txt ++ " model=" ++ showOut sk s.sv o2
     ({ s with spec := sp, conc := cm }, txt)
 
 def parseThr (s : String) : Option (List (Nat × Nat)) :=
@@ -112,17 +117,15 @@ def intHash : String → Option (Int → Nat)
   | "poly" => some (fun k => ((k * 31 + 17) % 4294967296).toNat)
   | _ => none
 
-def polyStr (s : String) : Nat := s.toList.foldl (fun h c => (31 * h + c.toNat) % 18446744073709551616) 0
-
-def strHash : String → Option (String → Nat)
-  | "id" | "poly" => some polyStr
-  | "mod3" => some (fun s => polyStr s % 3)
+def strHash : String → Option (BKey → Nat)
+  | "id" | "poly" => some bytesHash
+  | "mod3" => some (fun s => bytesHash s % 3)
   | "const" => some (fun _ => 7)
   | _ => none
 
 def newSess [DecidableEq K] (t : TypeDesc) (isEmpty : K → Bool)
     (hash : K → Nat) (cap : Nat) (tbl : List (Nat × Nat)) : Sess K :=
-  { d := t.descOf isEmpty, hash := hash, thr := thrOf tbl, spec := {}, conc := LMap.new (thrOf tbl) cap }
+  { d := t.descOf isEmpty, hash := hash, thr := thrOf tbl, spec := {}, conc := LMap.new (thrOf tbl) cap, sv := showVal t }
 
 def answer1 (st : St) (ws : List String) : St × String :=
   match ws with
@@ -136,14 +139,14 @@ def answer1 (st : St) (ws : List String) : St × String :=
         | none => (st, "bad-new")
       else
         match strHash hk with
-        | some h => (.strs (newSess t (fun (s : String) => s.isEmpty) h cap tbl), "ok")
+        | some h => (.strs (newSess t (fun (s : BKey) => s.isEmpty) h cap tbl), "ok")
         | none => (st, "bad-new")
     | _, _, _ => (st, "bad-new")
   | _ =>
     match st with
     | .none => (st, "no-session")
     | .ints s => let (s', o) := stepSess parseInt toString s ws; (.ints s', o)
-    | .strs s => let (s', o) := stepSess parseStrKey showStrKey s ws; (.strs s', o)
+    | .strs s => let (s', o) := stepSess parseKey showKey s ws; (.strs s', o)
 
 /-- `ToObject(src.ToBytes())`: every entry of the source, in its order, is put (mode last) into the target -/
 def copyInto (src : St) (dst : St) (_ : Unit) : St × String :=
